@@ -26,3 +26,9 @@ class AnalysisError(Exception):
 
     Reported as ANALYSIS-ERROR / exit 2; never as a violation and never as a pass.
     """
+
+
+class ShapeNotRecognised(AnalysisError):
+    """The anchor function is there, but the construct a rule reasons about has moved into a form the rule does not model
+    (e.g. the line loop now lives in a generator the function iterates).  Reported as UNDECIDED for that rule (exit status
+    unchanged): neither a violation nor a discharge."""
